@@ -92,7 +92,16 @@ func c19One(c *Ctx, rng *lab.RNG, cs c19Case) {
 		cs.Trace = append([]string(nil), trace...)
 		r.Violate(sig, fmt.Sprintf("params=(%g,%g): %s", cs.P0, cs.P1, detail), cs)
 	}
+	var history []uint64 // hashes added at any time (survives Clear): re-adding them after a Clear must work
+	justCleared := false
 	newHash := func() (uint64, string) {
+		if len(history) > 0 && (justCleared || rng.Chance(0.1)) {
+			justCleared = false
+			if rng.Chance(0.6) {
+				return history[len(history)-1], "last-before-clear"
+			}
+			return lab.Pick(rng, history), "re-add-old"
+		}
 		switch rng.Intn(4) {
 		case 0:
 			return lab.Pick(rng, structured), "structured"
@@ -190,6 +199,7 @@ func c19One(c *Ctx, rng *lab.RNG, cs c19Case) {
 				h, cls := newHash()
 				tr("Add(%#x)", h)
 				bf.Add(h)
+				history = append(history, h)
 				if _, dup := added[h]; !dup {
 					added[h] = struct{}{}
 					addedList = append(addedList, h)
@@ -205,6 +215,7 @@ func c19One(c *Ctx, rng *lab.RNG, cs c19Case) {
 				before := bf.Has(h)
 				got := bf.AddIfNotHas(h)
 				tr("AddIfNotHas(%#x)=%v (Has before=%v)", h, got, before)
+				history = append(history, h)
 				if got != !before {
 					fail("C19/addifnothas-result", fmt.Sprintf("AddIfNotHas(%#x)=%v but Has before=%v", h, got, before))
 					ok = false
@@ -246,6 +257,7 @@ func c19One(c *Ctx, rng *lab.RNG, cs c19Case) {
 				}
 				added = map[uint64]struct{}{}
 				addedList = addedList[:0]
+				justCleared = true
 				r.Obs("clears", 1)
 				r.DistinctKey("%s/clear", pkey)
 			}
